@@ -9,7 +9,9 @@ VERIF = os.path.dirname(os.path.dirname(os.path.abspath(__file__)))
 TRUST = ("Trusted: TLC; the pure-TLA+ BigNat library (model-checked against TLC's native integers by MC_BigNat); the "
          "executor's projection of results (as_limbs() -> bytes, catch_unwind -> panic flag). 'All BITS' is the fixed list "
          "of 42 compiled widths 0..4096; inputs are exhaustive only at BITS<=6, otherwise boundary-class products, "
-         "adversarial constructions and seeded random values. Little-endian 64-bit target only. Not a proof.")
+         "adversarial constructions and seeded random values. Executors run the debug profile (debug assertions, overflow checks); the "
+         "scenarios with a panicking call plus a sample (quick) / all scenarios (thorough) are executed again by --release "
+         "executors. Little-endian 64-bit target only. Not a proof.")
 TECH = "TLA+ contract specification (Layer 1) + TLC trace validation of executor events recorded from the real code"
 
 CHECKS = {
